@@ -17,7 +17,16 @@
  * how often, where the value ends up, how control leaves. Run-time kinds of values (nil / false / anything else) are
  * unconstrained ghost inputs.
  *
- * Forms have an identity: argv[i] is a keyword-typed Janet whose payload is the form id i+1; the literal nil is form 0. */
+ * Forms have an identity: argv[i] is a keyword-typed Janet whose payload is the form id i+1; the literal nil is form 0.
+ *
+ * Register model: 32 registers; fresh registers come from 0..15 (never the live hint register), the value of form f lives in
+ * register 16+f, the temporaries of the emitters are 24+tag. Units whose layout is what matters (if) leave the code sizes k_f
+ * symbolic and are split by context (value used / dropped / tail, constant condition) because the jump arithmetic over a fully
+ * symbolic layout is the SAT-hard part; units with recursion or token loops (quasiquote, fn) enumerate CONCRETE templates /
+ * parameter lists instead (a symbolic tuple length or element type makes symbolic execution explore every type case).
+ *
+ * quasiquote, fn and the top-level def / var units do not run the interpreter: their emitters are recording stubs and the
+ * postcondition is on the recorded constructor / store events. */
 #include "prelude.h"
 #include <stdlib.h>
 
@@ -101,7 +110,6 @@ void sp_ra_clone_stub(JanetcRegisterAllocator *d, JanetcRegisterAllocator *s) { 
 void sp_ra_deinit_stub(JanetcRegisterAllocator *ra) {}
 /* a free register: never one that holds a live value (the registers of the sub-forms' results, SP_SLOT0..) */
 #define SP_SLOT0 16
-static int sp_is_form_slot(int32_t r) { return r >= SP_SLOT0 && r < SP_SLOT0 + SP_NF; }
 static int32_t sp_hint_reg = -1;        /* register of the variable that receives the value (hint): live, never handed out */
 int32_t sp_ra_1_stub(JanetcRegisterAllocator *ra) { int32_t r = nd_i32(); __CPROVER_assume(r >= 0 && r < SP_SLOT0 && r != sp_hint_reg); sp_alloc_calls++; sp_alloc_last = r; return r; }
 /* temporaries: one register per tag, distinct from everything else (the real allocator reserves 0xF0..0xFF; the interpreter models 32 registers) */
@@ -110,12 +118,6 @@ void sp_ra_freetemp_stub(JanetcRegisterAllocator *ra, int32_t reg, JanetcRegiste
 void sp_ra_touch_stub(JanetcRegisterAllocator *ra, int32_t reg) { sp_touch_calls++; sp_touched = reg; }
 void sp_ra_free_stub(JanetcRegisterAllocator *ra, int32_t reg) { sp_free_calls++; sp_freed = reg; }
 
-/* contract of janetc_emit (proved in comp.srcmap.emit): appends the instruction and the current source mapping */
-void sp_emit_stub(JanetCompiler *c, uint32_t instr) {
-    __CPROVER_assert(c == &sp_c && sp_bufmem.cnt + 1 < SP_VCAP, "harness: the preallocated instruction vectors suffice");
-    __CPROVER_assume(sp_bufmem.cnt + 1 < SP_VCAP);
-    sp_bufmem.data[sp_bufmem.cnt++] = instr; sp_mapmem.cnt++;
-}
 static void sp_emit_owned(int f, int part, uint32_t w) {
     int32_t at = janet_v_count(sp_c.buffer);
     if (at < SP_VCAP) { sp_own[at] = (int8_t)(f + 1); sp_part[at] = (int8_t) part; sp_word[at] = w; }
@@ -1017,7 +1019,9 @@ static void sp_fn_case(int nfixed, int hasopt, int nopt, int tail, int namekind,
     if (tail >= FT_NAMED1) {
         __CPROVER_assert(sp_destr_calls == 1 && sp_destr_left_type == JANET_TABLE && sp_destr_right == arity && sp_tabput_calls == (tail == FT_NAMED2 ? 2 : 1),
                          "comp.fn: named parameters are destructured by keyword from the struct of remaining arguments in register arity");
+#if defined(SP_FN_TAIL) && SP_FN_TAIL >= 4
         REACH("fn: &named");
+#endif
     } else __CPROVER_assert(sp_destr_calls == 0, "comp.fn: symbol parameters need no destructuring");
     /* body */
     __CPROVER_assert(sp_calls[1] == (nbody >= 1) && sp_calls[2] == (nbody >= 2) && sp_ncalls == nbody && (nbody < 2 || sp_seq[1] < sp_seq[2]), "comp.fn: the body forms are compiled once each, in order");
@@ -1027,7 +1031,9 @@ static void sp_fn_case(int nfixed, int hasopt, int nopt, int tail, int namekind,
         if (nbody == 2) __CPROVER_assert((sp_optflags[1] & SP_CTXBITS) == JANET_FOPTS_DROP && (sp_scopeflags[1] & JANET_SCOPE_FUNCTION), "comp.fn: earlier body forms are compiled for effect");
     } else {
         __CPROVER_assert(sp_pop_codelen >= 1 && (sp_pop_lastinstr & 0xFF) == JOP_RETURN_NIL, "comp.fn: an empty body returns nil");
+#if !defined(SP_FN_TAIL)
         REACH("fn: empty body");
+#endif
     }
     /* the closure in the enclosing code */
     int32_t n = janet_v_count(sp_c.buffer);
@@ -1041,28 +1047,163 @@ static void sp_fn_case(int nfixed, int hasopt, int nopt, int tail, int namekind,
         for (int i = 0; i < 8; i++) if (i < sp_pop_nsyms && sp_pop_syms[i].sym == sp_fname) selfbound++;
         __CPROVER_assert(selfbound == 1, "comp.fn: a named function can refer to itself by name");
         if (g < sp_pop_nsyms && sp.sym == sp_fname) __CPROVER_assert(sp.slot.index >= ord, "comp.fn: the self reference does not occupy a parameter register");
+#if !defined(SP_FN_TAIL)
         REACH("fn: named");
+#endif
     }
     if (sp_ctx == SP_USED) __CPROVER_assert(!(ret.flags & JANET_SLOT_CONSTANT) && ret.index == (int32_t)((sp_c.buffer[SP_PRE] >> 8) & 0xFF), "comp.fn: the form yields the closure");
+#if defined(SP_FN_TAIL)
     if (hasopt) REACH("fn: &opt");
+#endif
+#if !defined(SP_FN_TAIL) || SP_FN_TAIL == 1
     if (tail == FT_REST) REACH("fn: & rest");
+#endif
+#if defined(SP_FN_TAIL) && SP_FN_TAIL == 2
     if (tail == FT_EXTRA) REACH("fn: & alone");
+#endif
+#if defined(SP_FN_TAIL) && SP_FN_TAIL == 3
     if (tail == FT_KEYS) REACH("fn: &keys");
+#endif
     REACH("fn returns");
 }
 void h_fn(void) {
 #ifdef SP_FN_ONE
     sp_fn_case(2, 1, 2, FT_NAMED2, 0, 1); return;
 #endif
-    /* every parameter list, unnamed function with one body form */
+#if defined(SP_FN_TAIL)
+    /* every parameter list with this tail variant, unnamed function with one body form */
     for (int nfixed = 0; nfixed <= 2; nfixed++)
         for (int nopt = 0; nopt <= 2; nopt++)
-            for (int tail = FT_NONE; tail <= FT_NAMED2; tail++)
-                sp_fn_case(nfixed, nopt > 0, nopt, tail, 0, 1);
+            sp_fn_case(nfixed, nopt > 0, nopt, SP_FN_TAIL, 0, 1);
+#else
     /* every naming and body length, with the parameter lists [p0] and [p0 & p1] */
     for (int namekind = 0; namekind <= 2; namekind++)
         for (int nbody = 0; nbody <= 2; nbody++) {
             sp_fn_case(1, 0, 0, FT_NONE, namekind, nbody);
             sp_fn_case(1, 0, 0, FT_REST, namekind, nbody);
         }
+#endif
+}
+
+/* ================================================================== if in a fresh compiler: memory safety of the label patching */
+void *sp_srealloc(void *p, size_t n) { void *q = realloc(p, n); __CPROVER_assume(q != (void *)0); return q; }
+void h_if_fresh(void) {
+    /* the first form a compiler sees: (if c a) with its value dropped, e.g. the body statement of (fn [c] (if c 1) 2).
+     * No instruction vector exists yet; the real janet_v_grow allocates it (capacity 1, 2, 4, ...). */
+    sp_setup(JANET_SCOPE_FUNCTION);
+    sp_c.buffer = (uint32_t *)0; sp_c.mapbuffer = (JanetSourceMapping *)0;
+    sp_isconst[1] = 0; __CPROVER_assume(sp_k[1] <= 1);      /* the condition: a local, or one instruction of code */
+    sp_isconst[2] = 1; sp_k[2] = 0; sp_choose_const(2);      /* the branch: a constant */
+    Janet argv[2]; argv[0] = sp_form(1); argv[1] = sp_form(2);
+    JanetFopts o; o.compiler = &sp_c; o.flags = JANET_FOPTS_DROP; o.hint = janetc_cslot(sp_nil());
+    sp_ctx = SP_DROP;
+    janetc_if(o, 2, argv);
+    __CPROVER_assert(sp_errors == 0 && sp_c.scope == &sp_outer, "comp.if.fresh: compiles without error, scopes closed");
+    __CPROVER_assert(janet_v_count(sp_c.buffer) == sp_k[1] + 1 && janet_v_count(sp_c.mapbuffer) == sp_k[1] + 1, "comp.if.fresh: the code is the condition and one conditional jump; source map in step");
+    __CPROVER_assert((sp_c.buffer[sp_k[1]] & 0xFF) == JOP_JUMP_IF_NOT && (int32_t) sp_c.buffer[sp_k[1]] >> 16 == 1, "comp.if.fresh: a false condition skips to the instruction after the if");
+    REACH("if in a fresh compiler returns");
+}
+
+/* ================================================================== def / var at top level (environment entry, ref cell) */
+static JanetTable sp_env, sp_attr_tab, sp_entry;
+static JanetArray sp_newref, sp_oldref;
+static Janet sp_srcmap_tuple[3];
+static int sp_redef, sp_old_kind;          /* old binding of the name: 0 none, 1 def, 2 var, 3 dynamic def */
+#define SP_NPUT 6
+static struct { JanetTable *t; Janet k, v; } sp_put[SP_NPUT];
+static int sp_nput, sp_clone_calls, sp_newref_calls, sp_push_calls;
+static struct { int op; JanetSlot a, b, c; int imm; int32_t at; } sp_emit3;
+static int sp_emit3_calls;
+JanetTable *sp_table_top_stub(int32_t cap) { return &sp_attr_tab; }
+JanetTable *sp_table_clone_stub(JanetTable *t) { __CPROVER_assert(t == &sp_attr_tab, "comp.def.top: the entry starts as a copy of the metadata table"); sp_clone_calls++; return &sp_entry; }
+void sp_table_put_rec_stub(JanetTable *t, Janet key, Janet value) { if (sp_nput < SP_NPUT) { sp_put[sp_nput].t = t; sp_put[sp_nput].k = key; sp_put[sp_nput].v = value; } sp_nput++; }
+Janet sp_table_get_stub(JanetTable *t, Janet key) { Janet r = sp_nil(); if (sp_redef) { r.type = JANET_BOOLEAN; r.as.u64 = 1; } return r; }
+const uint8_t *sp_csymbol_stub(const char *s) { return (const uint8_t *) s; }          /* interned keyword = its C string (identity) */
+const Janet *sp_make_sourcemap_stub(JanetCompiler *c) { return sp_srcmap_tuple; }
+JanetBinding sp_resolve_ext_stub(JanetTable *env, const uint8_t *sym) {
+    JanetBinding b; b.deprecation = JANET_BINDING_DEP_NONE; b.value = sp_nil(); b.type = JANET_BINDING_NONE;
+    if (sp_old_kind == 1) b.type = JANET_BINDING_DEF;
+    if (sp_old_kind == 2) { b.type = JANET_BINDING_VAR; b.value.type = JANET_ARRAY; b.value.as.pointer = &sp_oldref; }
+    if (sp_old_kind == 3) { b.type = JANET_BINDING_DYNAMIC_DEF; b.value.type = JANET_ARRAY; b.value.as.pointer = &sp_oldref; }
+    return b;
+}
+JanetArray *sp_array_stub(int32_t cap) { sp_newref_calls++; return &sp_newref; }
+void sp_array_push_stub(JanetArray *a, Janet x) { __CPROVER_assert(a == &sp_newref && x.type == JANET_NIL, "comp.def.top: a new ref cell starts as [nil]"); sp_push_calls++; }
+int32_t sp_emit_sss_rec_stub(JanetCompiler *c, uint8_t op, JanetSlot s1, JanetSlot s2, JanetSlot s3, int wr) {
+    sp_emit3.op = op; sp_emit3.a = s1; sp_emit3.b = s2; sp_emit3.c = s3; sp_emit3.imm = -1; sp_emit3.at = janet_v_count(c->buffer); sp_emit3_calls++;
+    __CPROVER_assert(wr == 0, "comp.def.top: a store writes no register");
+    janetc_emit(c, op); return sp_emit3.at;
+}
+int32_t sp_emit_ssu_rec_stub(JanetCompiler *c, uint8_t op, JanetSlot s1, JanetSlot s2, uint8_t imm, int wr) {
+    sp_emit3.op = op; sp_emit3.a = s1; sp_emit3.b = s2; sp_emit3.imm = imm; sp_emit3.at = janet_v_count(c->buffer); sp_emit3_calls++;
+    __CPROVER_assert(wr == 0, "comp.def.top: a store writes no register");
+    janetc_emit(c, op); return sp_emit3.at;
+}
+static int sp_key_is(Janet k, char c2) { return k.type == JANET_KEYWORD && ((const char *) k.as.pointer)[2] == c2; }     /* value, ref, redef, source-map: third letter l, f, d, u */
+static int sp_is_tab(Janet v, JanetTable *t) { return v.type == JANET_TABLE && v.as.pointer == (void *) t; }
+static int sp_is_arr(Janet v, JanetArray *a) { return v.type == JANET_ARRAY && v.as.pointer == (void *) a; }
+void h_def_top(void) {
+    sp_setup(JANET_SCOPE_FUNCTION | JANET_SCOPE_TOP);
+    sp_c.env = &sp_env;
+    sp_redef = nd_int() & 1; sp_old_kind = nd_int();
+    __CPROVER_assume(sp_old_kind >= 0 && sp_old_kind <= 3);
+    Janet argv[2];
+    argv[0].type = JANET_SYMBOL; argv[0].as.u64 = 0; argv[0].as.pointer = (void *) sp_symA;
+    argv[1] = sp_form(2);
+    sp_nput = sp_clone_calls = sp_newref_calls = sp_push_calls = sp_emit3_calls = 0;
+    JanetFopts opts = sp_opts();
+#if SP_VAR
+    JanetSlot ret = janetc_var(opts, 2, argv);
+#else
+    JanetSlot ret = janetc_def(opts, 2, argv);
+#endif
+    __CPROVER_assert(sp_errors == 0, "comp.def.top: a top-level binding compiles without error");
+    sp_common_post("def");
+    __CPROVER_assert(sp_calls[2] == 1 && sp_ncalls == 1 && (sp_optflags[2] & (JANET_FOPTS_TAIL | JANET_FOPTS_DROP)) == 0, "comp.def.top: the value form is compiled once, for its value");
+    __CPROVER_assert(sp_clone_calls == 1, "comp.def.top: one environment entry is created");
+    /* the environment: exactly one put into the environment, name -> entry */
+    int envputs = 0, refputs = 0, redefputs = 0, smputs = 0, other = 0;
+    Janet refv = sp_nil();
+    for (int i = 0; i < SP_NPUT; i++) if (i < sp_nput) {
+        if (sp_put[i].t == &sp_env) { envputs++; __CPROVER_assert(sp_put[i].k.type == JANET_SYMBOL && sp_put[i].k.as.pointer == (void *) sp_symA && sp_is_tab(sp_put[i].v, &sp_entry), "comp.def.top: the environment maps the name to the new entry"); }
+        else if (sp_put[i].t == &sp_entry && sp_key_is(sp_put[i].k, 'f')) { refputs++; refv = sp_put[i].v; }
+        else if (sp_put[i].t == &sp_entry && sp_key_is(sp_put[i].k, 'd')) { redefputs++; }
+        else if (sp_put[i].t == &sp_entry && sp_key_is(sp_put[i].k, 'u')) { smputs++; }
+        else other++;
+    }
+    __CPROVER_assert(sp_nput <= SP_NPUT && envputs == 1 && other == 0 && smputs == 1, "comp.def.top: the name is entered into the environment once; the entry records the source position; nothing else is written");
+    int32_t vend = SP_PRE + sp_k[2];
+    __CPROVER_assert(sp_emit3_calls == 1 && sp_emit3.at >= vend, "comp.def.top: one store instruction, after the code of the value form");
+    JanetSlot stored = sp_emit3.imm < 0 ? sp_emit3.c : sp_emit3.b;
+    int value_ok = sp_isconst[2] ? sp_is_const(stored, sp_constv[2]) : (!(stored.flags & JANET_SLOT_CONSTANT) && stored.index == sp_slot[2]);
+#if SP_VAR
+    /* a var form keeps the hint: the value was delivered into the hint slot (real janetc_copy in the value stub) and is stored from there */
+    if (opts.flags & JANET_FOPTS_HINT) value_ok = !(stored.flags & JANET_SLOT_CONSTANT) && stored.index == opts.hint.index;
+#endif
+#if SP_VAR
+    JanetArray *cell = (sp_redef && sp_old_kind == 2) ? &sp_oldref : &sp_newref;
+    __CPROVER_assert(refputs == 1 && sp_is_arr(refv, cell) && redefputs == 0, "comp.var.top: the entry holds the ref cell: a new [nil] array, or the cell of the variable being redefined (:redef set)");
+    __CPROVER_assert((cell == &sp_newref) == (sp_newref_calls == 1 && sp_push_calls == 1), "comp.var.top: a new cell is created only when none is reused");
+    __CPROVER_assert(sp_emit3.op == JOP_PUT_INDEX && sp_emit3.imm == 0 && (sp_emit3.a.flags & JANET_SLOT_CONSTANT) && sp_is_arr(sp_emit3.a.constant, cell) && value_ok,
+                     "comp.var.top: at run time the value is stored into element 0 of the ref cell");
+    __CPROVER_assert(janet_v_count(sp_outer.syms) == 0, "comp.var.top: a top-level variable is not a local");
+    if (cell == &sp_oldref) REACH("var top: redefinition reuses the cell");
+#else
+    if (!sp_redef) {
+        __CPROVER_assert(refputs == 0 && redefputs == 0, "comp.def.top: a plain definition has no ref cell");
+        __CPROVER_assert(sp_emit3.op == JOP_PUT && sp_emit3.imm < 0 && (sp_emit3.a.flags & JANET_SLOT_CONSTANT) && sp_is_tab(sp_emit3.a.constant, &sp_entry) &&
+                         (sp_emit3.b.flags & JANET_SLOT_CONSTANT) && sp_key_is(sp_emit3.b.constant, 'l') && value_ok,
+                         "comp.def.top: at run time the value is put under :value into the entry");
+        REACH("def top: plain");
+    } else {
+        JanetArray *cell = sp_old_kind == 3 ? &sp_oldref : &sp_newref;
+        __CPROVER_assert(refputs == 1 && sp_is_arr(refv, cell) && redefputs == 1, "comp.def.top: with :redef the entry is marked and holds a ref cell (the old one when the name was a redefinable definition)");
+        __CPROVER_assert(sp_emit3.op == JOP_PUT_INDEX && sp_emit3.imm == 0 && (sp_emit3.a.flags & JANET_SLOT_CONSTANT) && sp_is_arr(sp_emit3.a.constant, cell) && value_ok,
+                         "comp.def.top: with :redef the value is stored into element 0 of the ref cell at run time");
+        REACH("def top: redef");
+    }
+    /* later forms of the same top-level chunk see the name as a local too */
+    __CPROVER_assert(janet_v_count(sp_outer.syms) == 1 && sp_outer.syms[0].sym == sp_symA && !(sp_outer.syms[0].slot.flags & JANET_SLOT_MUTABLE), "comp.def.top: the name is also bound for the rest of the chunk");
+#endif
+    REACH("def top returns");
 }
